@@ -351,7 +351,7 @@ func exhaustiveC05(thorough bool, emit func(C05Case) bool) {
 		}
 	}
 	// very long names, quoted and unquoted (beyond bufio's 4096-byte buffer and beyond 64 KiB)
-	for _, n := range []int{4090, 4095, 4096, 4097, 4100, 8192, 70000} {
+	for _, n := range []int{4090, 4095, 4096, 4097, 4100, 8192, 70000, 1<<21 + 3} {
 		plainName := gen.B(bytes.Repeat([]byte("x"), n))
 		quotedName := gen.B(bytes.Repeat([]byte("y z"), n/3+1)[:n])
 		mixed := append(gen.B("(a'b):"), bytes.Repeat([]byte("q"), n)...)
